@@ -21,6 +21,49 @@ from ..engines import pattern, exchange
 EVALS = ('evalcluster', 'expandcluster_matrices', 'clusterevaluator')
 
 
+def _index_domain(rep, mod, ci):
+    """``self.index(R, ci)`` returns ``(n, mobile)``: n counts mobile sites when ``mobile`` is true and spectator sites
+    otherwise -- two index spaces that both start at 0.  ``self.vacancy`` is a *mobile* index, so a comparison of n with it
+    means something only where ``mobile`` is known to be true; elsewhere the spectator site that happens to carry the same
+    number is taken for the vacancy.  Located: every comparison / membership test of such an n with self.vacancy; verified:
+    the mobile flag of the same lookup is among the conditions holding there."""
+    from ._common import conditions_at
+    rep.rule('index-domain', 'a site index from self.index() is compared with the (mobile) vacancy index only where its mobile flag holds')
+    n = 0
+    for mname, fn in ci.methods.items():
+        pairs = {}
+        for st in ast.walk(fn):
+            if isinstance(st, ast.Assign) and isinstance(st.targets[0], ast.Tuple) and len(st.targets[0].elts) == 2 \
+                    and isinstance(st.value, ast.Call) and unparse(st.value.func) == 'self.index' \
+                    and all(isinstance(e, ast.Name) for e in st.targets[0].elts):
+                pairs[st.targets[0].elts[0].id] = st.targets[0].elts[1].id
+        if not pairs:
+            continue
+        for c in ast.walk(fn):
+            if not isinstance(c, ast.Compare):
+                continue
+            sides = [c.left] + list(c.comparators)
+            if not any(unparse(x) == 'self.vacancy' for x in sides):
+                continue
+            idx = [x.id for x in sides if isinstance(x, ast.Name) and x.id in pairs]
+            if not idx:
+                continue
+            # nested functions: conditions inside the innermost def
+            owner = c
+            while owner is not None and not isinstance(owner, (ast.FunctionDef, ast.Lambda)):
+                owner = getattr(owner, '_parent', None)
+            conds = conditions_at(owner if isinstance(owner, ast.FunctionDef) else fn, c)
+            for i_ in idx:
+                n += 1
+                flag = pairs[i_]
+                ok = flag in conds or ('%s == True' % flag) in conds or ('%s is True' % flag) in conds
+                rep.ob('index-domain', mod, c, 'ClusterSupercell.%s: %s  [holds there: %s]' % (mname, unparse(c), ', '.join(sorted(conds))[:60] or 'nothing'), ok,
+                       '' if ok else 'the index %s may number a spectator site here (its flag %s is not known to be true): the spectator site '
+                       'with the same number as the vacancy is treated as the vacancy' % (i_, flag), engine='flow',
+                       qual='ClusterSupercell.' + mname)
+    rep.floor('comparisons of a looked-up index with the vacancy', n, 1)
+
+
 def run(model, rep, tier):
     rep.explanation = __doc__.strip()
     from ._common import caches_for
@@ -32,6 +75,7 @@ def run(model, rep, tier):
     rep.rule('energy-sum', 'MonteCarloSampler.E sums the interactions with zero unoccupied sites over the energy range')
     mod = model.mod('supercell')
     ci = model.cls('supercell', 'ClusterSupercell')
+    _index_domain(rep, mod, ci)
     guards = {}
     for m in EVALS:
         fn = ci.methods.get(m)
